@@ -1,7 +1,7 @@
 //! C10 bounded witness search (whole database): "Once a file is removed from the analysis, either deleted or closed
 //! when it is not on disk, no result refers to it ... Its memory is also released."
 //!
-//!   replay search [seed] [count] [opts]     generated workspaces (default seed 1, 210 cases = 160 systematic + 50
+//!   replay search [seed] [count] [opts]     generated workspaces (default seed 1, 210 cases = 200 systematic + 10
 //!                                           random); prints `FOUND ...` + the workspace and exits 1 on the first
 //!                                           violation, exit 0 + one summary line otherwise
 //!   replay case <k> [seed] [opts]           re-run generated case k: prints the workspace and every finding
@@ -24,7 +24,12 @@
 //!
 //! Oracles, for a file F with id N (F = every file of the workspace in turn, each on a freshly built analysis):
 //!   TRACE     after `remove_file_by_uri(F)`: no line of the dump contains `FileId(N)`, no line of `vfs.file_id_map` /
-//!             `vfs.file_path_map` carries N, no line anywhere contains F's path.                    (no exclusion at all)
+//!             `vfs.file_path_map` carries N, no line contains F's path / uri, and no line contains F's MARKER: text
+//!             that only F contains (`MKAAZ`.. in its doc comments, deprecation messages, @see).  A remote document
+//!             is first closed with `update_remote_file_by_uri(uri, None)`: same check, minus `vfs.remote_file_id_map`.
+//!   Where F lives: under the workspace root; or (24 systematic cases + 1/4 of the random ones) outside every root,
+//!             an `untitled:` / custom-scheme document submitted with `update_remote_file_by_uri`, or an `untitled:`
+//!             uri submitted with `update_file_by_uri` (see `Reloc`) -- none of these has a module entry.
 //!   NEVER-HAD analyse the workspace without F; add F; remove F: the dump equals the one before adding F.
 //!   GROWTH    all files analysed; remove F; 5 x (add F; remove F): the dump after round 1 and after round 5 equals
 //!             the one after the first removal (ids F has had are unified), TRACE holds for every id F received.
@@ -39,14 +44,19 @@
 //!                            and mentions F (`remove_file_by_uri` does not re-analyse dependents): see `Walk`
 //!   RestoreDiff (same)       every RESTORE difference: on the real code they are stale dependents that accumulate and
 //!                            order-dependent inference; leaks proper are caught by the other oracles
-//! Places that legitimately differ, excluded from the *comparisons* (never from TRACE), each by exact field:
+//! Findings also carry a kind: Line (TRACE), Loss (entry absent afterwards), Gain (entry only there afterwards), Changed
+//! (entry present before and after with a different content).  A `--known` pattern that starts with `- ` pins a pure
+//! Loss, one that starts with `+ ` a pure Gain; neither matches a Changed entry.
+//! Places that legitimately differ, dropped from the tree before any oracle looks at it, each by exact field (none of
+//! them can hold a file id; the marker oracle therefore does not see the interner either):
 //!   vfs.file_data  elements `None,`       the id allocator: an id is an index into this vector and is never reused, a
 //!                                         removed file leaves its (empty) slot
 //!   modules_index.id_counter, property_index.id_count      monotonic id allocators
 //!   vfs.node_cache                        rowan's green-node interner shared by all parses (tokens / small nodes, no file
 //!                                         ids); it never shrinks -- an observation, not searched
-//!   numbers inside LuaPropertyId(..) / ModuleNodeId(..) are masked (allocator-dependent); for RESTORE the bare u32
-//!   ids of vfs.file_id_map / vfs.file_path_map are renamed new -> old as well.
+//!   for RESTORE only (two allocation histories): numbers inside LuaPropertyId(..) / ModuleNodeId(..) are masked and
+//!   the bare u32 ids of vfs.file_id_map / vfs.file_path_map are renamed new -> old; NEVER-HAD and GROWTH compare
+//!   states of one analysis, where a surviving entry keeps its id -- that is what pairs a changed entry.
 use emmylua_code_analysis::{EmmyLuaAnalysis, Emmyrc, FileId, file_path_to_uri};
 use lsp_types::Uri;
 use std::path::PathBuf;
@@ -196,13 +206,16 @@ enum Mode {
 }
 
 /// where a file lives: `name` of a file entry is `x.lua` (under the main workspace root), `outside:x.lua` (a path
-/// outside every root: no module entry), `untitled:Name` (a document without a path, `update_file_by_uri`) or
-/// `remote:x.lua` (`update_remote_file_by_uri`).  The module name of the last three is "" (none expected).
+/// outside every root: analysed, no module entry), `untitled:Name` / `remote:x.lua` (a document without a path,
+/// submitted with `update_remote_file_by_uri`: analysed in the REMOTE workspace, no module entry) or
+/// `plain-untitled:Name` (an `untitled:` uri submitted with `update_file_by_uri`: it only ever lives in the vfs, the
+/// analyzer skips it; random cases only).  The module name of all of these is "" (none expected).
 #[derive(Clone, Copy, PartialEq, Debug)]
 enum Reloc {
     Outside,
     Untitled,
     Remote,
+    PlainUntitled,
 }
 const MARKERS: [&str; 4] = ["MKAAZ", "MKBBZ", "MKCCZ", "MKDDZ"];
 
@@ -261,6 +274,7 @@ fn build_case(k: usize, mode: Mode, n_files: usize, chosen: &[(usize, Vec<usize>
             Some((s, Reloc::Outside)) if s == slot => (format!("outside:{stem}"), String::new()),
             Some((s, Reloc::Untitled)) if s == slot => (format!("untitled:Untitled-{}", MODULE_NAMES[slot]), String::new()),
             Some((s, Reloc::Remote)) if s == slot => (format!("remote:{stem}"), String::new()),
+            Some((s, Reloc::PlainUntitled)) if s == slot => (format!("plain-untitled:Untitled-{}", MODULE_NAMES[slot]), String::new()),
             _ => (FILE_NAMES[slot].to_string(), MODULE_NAMES[slot].to_string()),
         };
         markers.push(if text.contains(MARKERS[slot]) { MARKERS[slot].to_string() } else { String::new() });
@@ -334,7 +348,7 @@ fn gen_case(seed: u64, k: usize) -> Case {
         order.swap(i, rng.below(i + 1));
     }
     let mode = if rng.below(3) == 0 { Mode::Seq } else { Mode::Batch };
-    let reloc = if rng.below(4) == 0 { Some((rng.below(n_files), [Reloc::Outside, Reloc::Untitled, Reloc::Remote][rng.below(3)])) } else { None };
+    let reloc = if rng.below(4) == 0 { Some((rng.below(n_files), [Reloc::Outside, Reloc::Untitled, Reloc::Remote, Reloc::PlainUntitled][rng.below(4)])) } else { None };
     build_case(k, mode, n_files, &chosen, &order, reloc)
 }
 
@@ -800,7 +814,10 @@ fn diff_kids(cx: &DiffCtx, a: &[Group], b: &[Group], collection: bool, path: &mu
         // a partner: the same key, and no other candidate with that key on either side
         let cands: Vec<usize> = rest_b.iter().copied().filter(|j| pair_key(&b[*j]) == key).collect();
         let rivals = rest_a.iter().filter(|x| pair_key(&a[**x]) == key).count();
-        if cands.len() == 1 && rivals == 1 {
+        // (inside one value -- struct / tuple, not a collection -- a single leftover on each side is the same slot)
+        let same_slot = !collection && rest_a.len() == 1 && rest_b.len() == 1;
+        if same_slot || (cands.len() == 1 && rivals == 1) {
+            let cands = if same_slot { rest_b.clone() } else { cands };
             let j = cands[0];
             rest_b.retain(|x| *x != j);
             diff_group(cx, &a[i], &b[j], path, attr(j), out);
@@ -820,7 +837,7 @@ fn diff_kids(cx: &DiffCtx, a: &[Group], b: &[Group], collection: bool, path: &mu
 fn diff_group(cx: &DiffCtx, a: &Group, b: &Group, path: &mut Vec<String>, attributed: bool, out: &mut Vec<Violation>) {
     let pushed = if let Some(l) = b.label() { path.push(l.to_string()); true } else { false };
     let same_shape = a.segs.len() == b.segs.len() && a.segs.iter().zip(&b.segs).all(|(x, y)| x.head == y.head);
-    if !same_shape || a.segs.iter().all(|s| s.kids.is_empty()) {
+    if !same_shape || (a.segs.iter().all(|s| s.kids.is_empty()) && b.segs.iter().all(|s| s.kids.is_empty())) {
         report_diff(cx, path, attributed, Some(a), Some(b), out);
     } else {
         let inside_field = path.len() >= 2;
@@ -858,8 +875,8 @@ fn uri_of(name: &str) -> Uri {
     };
     if let Some(rest) = name.strip_prefix("outside:") {
         by_path(format!("{OUTSIDE_ROOT}/{rest}"))
-    } else if name.starts_with("untitled:") {
-        Uri::from_str(name).unwrap_or_else(|_| setup_failed(&format!("no uri for {name}")))
+    } else if name.starts_with("untitled:") || name.starts_with("plain-untitled:") {
+        Uri::from_str(name.trim_start_matches("plain-")).unwrap_or_else(|_| setup_failed(&format!("no uri for {name}")))
     } else if let Some(rest) = name.strip_prefix("remote:") {
         Uri::from_str(&format!("vp-c10t-remote://host/{rest}")).unwrap_or_else(|_| setup_failed(&format!("no uri for {name}")))
     } else {
@@ -867,11 +884,14 @@ fn uri_of(name: &str) -> Uri {
     }
 }
 /// the text by which the dump would name the file (path / uri)
+fn is_remote(name: &str) -> bool {
+    name.starts_with("remote:") || name.starts_with("untitled:")
+}
 fn path_text(name: &str) -> String {
     if let Some(rest) = name.strip_prefix("outside:") {
         format!("{OUTSIDE_ROOT}/{rest}")
-    } else if name.starts_with("untitled:") {
-        name.to_string()
+    } else if name.starts_with("untitled:") || name.starts_with("plain-untitled:") {
+        name.trim_start_matches("plain-").to_string()
     } else if let Some(rest) = name.strip_prefix("remote:") {
         format!("vp-c10t-remote://host/{rest}")
     } else {
@@ -895,7 +915,7 @@ fn fresh(files: &[&(String, String, String)], mode: Mode) -> (EmmyLuaAnalysis, V
             // what update_files_by_uri does, with a fixed order of the ids (it goes through a std HashSet)
             for (name, _, text) in files {
                 let vfs = a.compilation.get_db_mut().get_vfs_mut();
-                ids.push(if name.starts_with("remote:") { vfs.set_remote_file_content(&uri_of(name), Some(text.clone())) } else { vfs.set_file_content(&uri_of(name), Some(text.clone())) });
+                ids.push(if is_remote(name) { vfs.set_remote_file_content(&uri_of(name), Some(text.clone())) } else { vfs.set_file_content(&uri_of(name), Some(text.clone())) });
             }
             a.compilation.remove_index(ids.clone());
             a.compilation.update_index(ids.clone());
@@ -917,7 +937,7 @@ fn fresh(files: &[&(String, String, String)], mode: Mode) -> (EmmyLuaAnalysis, V
 }
 
 fn add(a: &mut EmmyLuaAnalysis, name: &str, text: &str) -> FileId {
-    if name.starts_with("remote:") {
+    if is_remote(name) {
         return a.update_remote_file_by_uri(&uri_of(name), Some(text.to_string()));
     }
     match a.update_file_by_uri(&uri_of(name), Some(text.to_string())) {
@@ -966,6 +986,19 @@ fn run_case(case: &Case, ignore: &[String]) -> Vec<Violation> {
         let id0 = all_ids[fi];
         let other_ids: Vec<FileId> = all_ids.iter().copied().filter(|i| *i != id0).collect();
         let s0 = snap_with(&a, None, true, ignore);
+        if is_remote(name) {
+            // a remote document is closed first (`update_remote_file_by_uri(uri, None)`): its index entries must go;
+            // the vfs keeps the uri -> id entry of a closed (not removed) document, that one field is not looked at
+            if a.update_remote_file_by_uri(&uri_of(name), None) != id0 {
+                setup_failed("closing a remote document changed its id");
+            }
+            let mut closed = Vec::new();
+            trace(&snap(&a, None, ignore), &Ids::new(&[id0], &other_ids).with_marker(&case.markers[fi]), name, id0, &mut closed);
+            for mut v in closed.into_iter().filter(|v| v.field != "vfs.remote_file_id_map") {
+                v.detail = String::from("after update_remote_file_by_uri(uri, None) the dump still names the closed document");
+                out.push(v);
+            }
+        }
         remove(&mut a, name, id0);
         let s1 = snap(&a, None, ignore);
         let mut dead = vec![id0];
